@@ -21,7 +21,7 @@ func ccmCombos() []combo {
 }
 
 func ccmKP(variant int, a cipher.AEAD, cb combo) string {
-	return "ccm/" + variants[variant] + ":" + typeName(a) + "/nonce=" + itoa(cb.ns) + "/tag=" + itoa(cb.ts)
+	return "ccm/" + variants[variant] + ":" + typeName(a)
 }
 
 func newCCM(t *engine.T, b cipher.Block, vi int, cb combo) cipher.AEAD {
@@ -109,7 +109,7 @@ func runCCM(c *engine.Ctx) {
 			}
 			w := newWork(mx, 13, maxAAD)
 			defer w.release(t, "ccm/"+variants[vi])
-			gPT := w.pool.Get(mx)
+			gPT := w.get("plaintext", mx)
 			fill(w.aad, uint32(600+cb.ns*17+cb.ts))
 			aadMaster := append([]byte{}, w.aad...)
 			for _, n := range ptLens {
